@@ -23,18 +23,20 @@ PATTERNS = [
     [(A(D('5.00'), 'EUR'), None), (A(D('7.50'), 'USD'), None), (A(D('-5.00'), 'EUR'), None)],
     [(A(D('1'), 'HOOL'), LOT_A), (A(D('1'), 'HOOL'), None), (A(D('-2.50'), 'USD'), None)],
     [(A(D('0.001'), 'EUR'), None), (A(D('-12345.678'), 'USD'), None), (A(D('1E+2'), 'USD'), None)],
+    [(A(D('-5000.00'), 'USD'), None), (A(D('-5000.00'), 'USD'), None), (A(D('-5000.00'), 'USD'), None)],   # identical postings
 ]
 PRICES = [data.Price(ledger.meta(90), datetime.date(2019, 1, 1), 'HOOL', A(D('110.00'), 'USD')),
           data.Price(ledger.meta(91), datetime.date(2019, 1, 1), 'EUR', A(D('1.25'), 'USD')),
           data.Price(ledger.meta(92), datetime.date(2019, 3, 1), 'HOOL', A(D('125.00'), 'USD'))]
 
 
-def build(pattern, flags, accs, split):
-    """Three postings (in two transactions when split) with symbolic selection flags and accounts."""
+def build(pattern, flags, accs, split, nometa=False):
+    """Three postings (in two transactions when split) with symbolic selection flags and accounts; without posting
+    metadata (like the postings synthesised by OPEN / CLOSE / CLEAR) equal postings compare equal."""
     posts = []
     for (units, cost), flag, acc in zip(pattern, flags, accs):
         posts.append(data.Posting('Assets:A' if acc else 'Assets:B', units, cost, None, '!' if flag else None,
-                                  ledger.meta(len(posts) + 1)))
+                                  None if nometa else ledger.meta(len(posts) + 1)))
     if split:
         txns = [ledger.txn(datetime.date(2019, 2, 10), posts[:1], narration='t0', lineno=1),
                 ledger.txn(datetime.date(2019, 2, 11), posts[1:], narration='t1', lineno=2)]
@@ -67,7 +69,7 @@ def _setup(kw):
     pattern = pick(PATTERNS, kw['pat'])
     flags = [True if kw[f'f{i}'] else False for i in range(3)]
     accs = [True if kw[f'a{i}'] else False for i in range(3)]
-    entries, posts = build(pattern, flags, accs, True if kw['split'] else False)
+    entries, posts = build(pattern, flags, accs, True if kw['split'] else False, True if kw.get('nometa') else False)
     return entries, posts, flags, accs
 
 
@@ -162,8 +164,11 @@ BALANCE_TARGETS = [
       bounds='as C12.sum; targets referencing `balance` 0, 1, 2 or 3 times (also with a subquery scan of #postings between two '
              'references); WHERE does not consult it: every reported balance is the inventory sum of the selected positions up '
              'to and including the row, the last one equals sum(position) of the selection',
-      symbolic='selection bits, transaction split', enumerated='amount pattern, target list', params={**PARAMS, 'targets': int})
+      symbolic='selection bits, transaction split, postings with / without metadata (equal postings compare equal without)',
+      enumerated='amount pattern, target list',
+      params={'pat': int, 'f0': bool, 'f1': bool, 'f2': bool, 'split': bool, 'targets': int, 'nometa': bool})
 def balance(targets, **kw):
+    kw = dict(kw, a0=False, a1=False, a2=False)      # the account plays no role for the running balance
     entries, posts, flags, accs = _setup(kw)
     conn = _conn(entries)
     tlist = pick(BALANCE_TARGETS, targets)
